@@ -33,6 +33,7 @@ CONSTANTS
                  \* /repo; {} in every normal configuration, see DESIGN.md section 3):
                  \*   "RecoveryIgnoresTombstones"  D1   "MergeSelectsOnlyEligible"  D2
                  \*   "MergeNoSync"                D5a  "HintsTrustedBlindly"       D5b
+                 \*   "HintFileUnknownToStats"     D8
                  \*   "UnlinkDescending"  (a seeded mutant, not a defect of the delivered tree)
 
 Tomb == "T"       \* the value field of a tombstone entry
@@ -104,8 +105,11 @@ BW(pieces, buffered) ==
 EWrites(k, v) == BW(EPieces(k, v), 0)     \* write calls of LogWriter::append for a data entry
 HWrites(k)    == BW(HPieces(k), 0)        \* write calls for a hint entry
 \* merge copies a record with io::copy into a BufWriter that is flushed by every copy
-\* (std specialisation; assumption CopyFlushes, checked by the syscall conformance)
-CWrites(k, v) == <<ESize(k, v)>>
+\* (std specialisation; assumption CopyFlushes, checked by the syscall conformance): the record
+\* reaches the output in pieces of at most BufCap bytes, one write(2) each
+RECURSIVE Chunks(_)
+Chunks(n) == IF n <= BufCap THEN <<n>> ELSE <<BufCap>> \o Chunks(n - BufCap)
+CWrites(k, v) == Chunks(ESize(k, v))
 
 -----------------------------------------------------------------------------------------
 (* Files *)
@@ -184,7 +188,11 @@ RECURSIVE RebuildFrom(_, _, _, _)
 RebuildFrom(st, ids, d, h) ==
     IF ids = {} THEN st
     ELSE LET f   == Min(ids)
-             st1 == IF f \in DOMAIN h THEN ScanHint(st, f, h[f].ents, DSize(d[f]))
+             \* a file recovered from its hint file is made known to the statistics even when the hint file
+             \* yields nothing (after a kill inside a merge the hint file can lack entries of its data file)
+             stH == IF "HintFileUnknownToStats" \in Deviations THEN st
+                    ELSE [st EXCEPT !.stt = IF f \in DOMAIN @ THEN @ ELSE With(@, f, ZeroStat)]
+             st1 == IF f \in DOMAIN h THEN ScanHint(stH, f, h[f].ents, DSize(d[f]))
                                       ELSE ScanData(st, f, d[f].ents, 0)
          IN RebuildFrom(st1, ids \ {f}, d, h)
 
@@ -354,14 +362,29 @@ MergeCreateHint ==
 \* (moved entries point at an output id, which is never in sel)
 MergeTodo == {k \in Keys : keydir[k] # NoKE /\ keydir[k].fid \in wr.sel}
 
-\* the DashMap iterator yields the next key (any order) and its record is copied
+\* the DashMap iterator yields the next key (any order) and its record is copied: the first (for
+\* records up to BufCap bytes the only) write(2) into the output
+MergeSrcEntry(k) == EntryAt(data[keydir[k].fid], keydir[k].pos)      \* the bytes the mapping yields
 MergeCopy(k) ==
     /\ wr.pc = "m.loop" /\ k \in MergeTodo
-    /\ LET src == data[keydir[k].fid]
-           e   == EntryAt(src, keydir[k].pos)      \* the bytes the mapping yields
+    /\ LET e     == MergeSrcEntry(k)
+           calls == CWrites(e.k, e.v)
        IN /\ e # NoEnt
-          /\ data' = [data EXCEPT ![wr.out] = LastWrite(@, e)]
-    /\ wr' = [wr EXCEPT !.pc = "m.repoint", !.k = k]
+          /\ IF Len(calls) = 1
+               THEN /\ data' = [data EXCEPT ![wr.out] = LastWrite(@, e)]
+                    /\ wr' = [wr EXCEPT !.pc = "m.repoint", !.k = k]
+               ELSE /\ data' = [data EXCEPT ![wr.out] = TornWrite(@, calls[1])]
+                    /\ wr' = [wr EXCEPT !.pc = "m.copy", !.k = k, !.ci = 2]
+    /\ UNCHANGED <<cfg, hint, dsync, hsync, keydir, stats, active, written, model, everIds,
+                   nops, ncrash, mghost>>
+\* the remaining pieces of a record above BufCap bytes; the index is re-pointed only after the last one
+MergeCopyMore ==
+    /\ wr.pc = "m.copy"
+    /\ LET e     == MergeSrcEntry(wr.k)
+           calls == CWrites(e.k, e.v)
+           last  == wr.ci = Len(calls)
+       IN /\ data' = [data EXCEPT ![wr.out] = IF last THEN LastWrite(@, e) ELSE TornWrite(@, calls[wr.ci])]
+          /\ wr' = IF last THEN [wr EXCEPT !.pc = "m.repoint"] ELSE [wr EXCEPT !.ci = @ + 1]
     /\ UNCHANGED <<cfg, hint, dsync, hsync, keydir, stats, active, written, model, everIds,
                    nops, ncrash, mghost>>
 
@@ -445,7 +468,7 @@ MergeNewActive ==
     /\ UNCHANGED <<cfg, hint, hsync, keydir, stats, model, nops, ncrash>>
 
 MergeStep ==
-    \/ MergeCreateData \/ MergeCreateHint \/ (\E k \in Keys : MergeCopy(k)) \/ MergeRepoint
+    \/ MergeCreateData \/ MergeCreateHint \/ (\E k \in Keys : MergeCopy(k)) \/ MergeCopyMore \/ MergeRepoint
     \/ MergeHint \/ MergeSyncData \/ MergeSyncHint \/ MergeLoopEnd \/ MergeUnlinkHint
     \/ MergeUnlinkData \/ MergeNewActive
 
